@@ -13,7 +13,7 @@ EXPLANATION = (
     "- a target for which is_valid is false yields Kind::InvalidModule and is never loaded; (R5) JOIN-AGREE - module::load "
     "and resolve::declare_import derive the imported locator with the same Locator::join(loc, import.module()). "
     "Exactly-once over all graphs as observed behaviour and the url crate's path normalisation are not decided.")
-EXPLANATION += " Further clauses: (R6) COMPLETE - Program::imports selects children by cast only, CycleDetected is constructed only by the failed toposort, the already-loaded arm cannot fail; (R7) LOCATORS - Locator::join delegates to url::Url::join and every Loader::is_valid returns the file system's (or the fixed input's) verdict. The rules follow is_valid/join into closures of module::load. R7 also requires locator_path to convert with url::Url::to_file_path. R7 also requires FileSystem::is_valid to follow symbolic links like read_file."
+EXPLANATION += " Further clauses: (R6) COMPLETE - Program::imports selects children by cast only, CycleDetected is constructed only by the failed toposort, the already-loaded arm cannot fail; (R7) LOCATORS - Locator::join delegates to url::Url::join and every Loader::is_valid returns the file system's (or the fixed input's) verdict. The rules follow is_valid/join into closures of module::load. R7 also requires locator_path to convert with url::Url::to_file_path. R7 also requires FileSystem::is_valid to follow symbolic links like read_file. (R8) SPELLING - two spellings of one file are one module."
 TECHNIQUE = "static analysis: MIR dominance, must-pass-through and argument-provenance rules on module::load"
 
 L = 'oal_compiler::module::load'
@@ -443,7 +443,8 @@ def r7_locators(c, facts):
     jn = c.anchor(R, 'oal_model::locator::Locator::join')
     names = [P.strip(callee_of(t)['def']) for b, t in jn.calls() if callee_of(t)]
     url_join = [n for n in names if n.endswith('Url::join')]
-    other_url = sorted({n.split('::')[-1] for n in names if n.startswith('url::') and not n.endswith('Url::join')})
+    NORMALISING = {'set_fragment', 'set_query', 'set_path', 'path', 'path_segments', 'path_segments_mut', 'fragment', 'query', 'clone'}
+    other_url = sorted({n.split('::')[-1] for n in names if n.startswith('url::') and not n.endswith('Url::join')} - NORMALISING)
     if url_join and not other_url:
         c.ok(R, {'Locator::join': 'delegates to url::Url::join'})
     else:
@@ -500,7 +501,21 @@ def r7_locators(c, facts):
     c.floor(R, 'FileSystem::is_valid implementations', m, 1)
 
 
+def r8_spelling(c, facts):
+    """one file, one module: the locator is compared as a URL string, so whatever `use` may spell differently for the
+    same file (a fragment, a query, an empty segment) has to be removed when the locator is made"""
+    R = c.rule('C10.R8', 'SPELLING: two spellings of one file are one module: the locator of an import is normalised before it is compared')
+    jn = c.anchor(R, 'oal_model::locator::Locator::join')
+    names = [P.strip(callee_of(t)['def']) for b, t in jn.calls() if callee_of(t)]
+    norm = {n.split('::')[-1] for n in names if n.startswith('url::')} & {'set_fragment', 'set_query'}
+    if norm == {'set_fragment', 'set_query'}:
+        c.ok(R, {'Locator::join': 'strips fragment and query'})
+    else:
+        c.bad(R, 'locator-spelling-not-normalised', 'Locator::join keeps the fragment / query of the reference it resolves (and locators are compared as URL strings): `use "m.oal"` and `use "m.oal#x"` (or `?v=1`, or `sub//m.oal`) name the same file but are two modules, each loaded, parsed and compiled')
+
+
 def run(c, facts):
+    c.run(r8_spelling, facts)
     c.run(r7_locators, facts)
     c.run(r6_complete, facts)
     c.run(r1_once, facts)
